@@ -35,8 +35,12 @@ class TopologicalSortPass(ir.passes.InPlacePass):
         except ValueError:
             # A later graph or function contains a cycle: the pass fails as a whole.
             # Put back the order of everything that was already sorted, then re-raise.
+            # Graphs whose order did not change (in particular those that were never
+            # sorted) are left alone: re-extending them would assign names to their
+            # unnamed nodes and could itself be rejected.
             for original_nodes, graph_like in zip(original_orders, graph_likes):
-                graph_like.extend(original_nodes)
+                if any(a is not b for a, b in zip(original_nodes, graph_like)):
+                    graph_like.extend(original_nodes)
             raise
 
         # Compare node orders to determine if any changes were made
